@@ -1149,3 +1149,57 @@ Proof.
     assert (r = r') as -> by (apply is_subpkg_same_length; [exact H | lia]). apply is_subpkg_refl.
   - pose proof (sltb_total _ _ E1 E2). subst. apply is_subpkg_refl.
 Qed.
+
+(* ------------------------------------------------------------------ *)
+(* validated configurations: no regular expression error is ever reached *)
+
+(* every entry of the map after Initialize has the selection settings of some package config of the
+   map before the recursive expansion *)
+Lemma final_core_from_m1 t root o m0 k p :
+  full root -> NoDup (map fst m0) -> NoDup (map fst t) -> Permutation o (map fst m0) ->
+  lookup k (expand_recursive t root o m0) = Some p ->
+  exists k1 p1, lookup k1 (init_pkgs root m0) = Some p1 /\ core (p_cfg p) = core (p_cfg p1).
+Proof.
+  intros F NDm NDt P H. set (m1 := init_pkgs root m0) in *.
+  destruct (lookup k m1) as [p1|] eqn:E1.
+  - destruct (explicit_kept t root o m0 F NDm NDt P k p1 E1) as (p' & E & _ & Hc & _).
+    rewrite H in E. injection E as <-. eauto.
+  - destruct (filter (fun r => adopts t (cfg_of m1 r) r k) (rec_order o m1)) as [|r rest] eqn:Ef.
+    + rewrite (final_closed_form t root o m0 NDm NDt P k) in H. fold m1 in H. rewrite Ef, E1 in H. discriminate.
+    + assert (adopter t m1 r k) as Hr.
+      { apply (filter_adopters_in t root o m0 P). fold m1. rewrite Ef. now left. }
+      destruct (nearest_exists t root o m0 NDm P k r Hr) as (rn & Hn & Hall).
+      destruct (adopted_nearest t root o m0 F NDm NDt P k rn E1 Hn Hall) as (p' & E & _ & Hc & _).
+      rewrite H in E. injection E as <-.
+      destruct Hn as (Hrec & _). apply is_recursive_key in Hrec.
+      destruct (lookup rn (init_pkgs root m0)) as [pr|] eqn:Er; [|congruence].
+      exists rn, pr. split; [exact Er|]. rewrite Hc. unfold cfg_of. fold m1. unfold m1. now rewrite Er.
+Qed.
+
+Lemma regexes_ok_core c c' : core c = core c' -> regexes_ok c = regexes_ok c'.
+Proof. unfold core, regexes_ok. intros H. injection H as _ -> -> _ _. reflexivity. Qed.
+
+Lemma config_valid_final t root o m0 k p :
+  full root -> NoDup (map fst m0) -> NoDup (map fst t) -> Permutation o (map fst m0) ->
+  config_valid root m0 = true ->
+  lookup k (expand_recursive t root o m0) = Some p -> regexes_ok (p_cfg p) = true.
+Proof.
+  intros F NDm NDt P V H.
+  destruct (final_core_from_m1 t root o m0 k p F NDm NDt P H) as (k1 & p1 & E1 & Hc).
+  rewrite (regexes_ok_core _ _ Hc). unfold config_valid in V. apply andb_true_iff in V as [_ V].
+  rewrite forallb_forall in V. apply (V (k1, p1)). now apply lookup_some_in.
+Qed.
+
+Lemma regexes_ok_no_error p n e : regexes_ok (p_cfg p) = true -> should_generate p n <> Err e.
+Proof.
+  unfold regexes_ok, should_generate. intros H. apply andb_true_iff in H as [Hi He].
+  destruct (c_all (p_cfg p)) as [[|]|]; simpl; try discriminate.
+  destruct (lookup n (p_ifaces p)); simpl; try discriminate.
+  destruct (c_inc (p_cfg p)) as [[| |pi]|]; simpl in *; try discriminate;
+  destruct (c_exc (p_cfg p)) as [[| |pe]|]; simpl in *; try discriminate;
+  destruct (negb (pat_match pi n)); discriminate.
+Qed.
+
+Lemma run_invalid t ss root o1 o2 m :
+  config_valid root m = false -> run t ss root o1 o2 m = {| o_exit := ExErr; o_mocks := [] |}.
+Proof. intros H. unfold run. now rewrite H. Qed.
